@@ -66,7 +66,7 @@ def classify(prop: str, key: str, a: Any, b: Any, case: dict | None = None) -> s
             op = case["rounds"][int(r)]["scripts"][c][int(k)]["op"]
         except Exception:  # noqa: BLE001
             pass
-    what = "verdict" if prop == "C02" else "result"
+    what = "verdict" if prop in ("C02", "C04") else "result"
     return f"{prop}/O5/{op}/{what}-differs-between-hash-seeds-or-histories"
 
 
